@@ -283,6 +283,26 @@ func runC10(p *engine.Prog, r *engine.Report) {
 	} else {
 		r.Add("R10.4-idle-since", "order in UpdateTargets", "UpdateTargets", "calls the status rebuild and the idle update", "roles not found", engine.Undecided)
 	}
+	// a restart keeps the instant: the store is decoded into the manager's own TargetsInfo (shared with C09 R9.3)
+	if ld := p.SSAFunc(p.Method(pkgSide, "TargetsManager", "Load")); ld != nil {
+		fTargetsMgr := p.Field(pkgSide, "TargetsManager", "targets")
+		fi := p.Info(ld)
+		okL, why := false, "no json.Unmarshal into TargetsManager.targets in Load"
+		for _, in := range allInstrs(ld) {
+			if call, ok := in.(*ssa.Call); ok && engine.CalleeIs(call.Common(), "encoding/json", "", "Unmarshal") {
+				dst := unwrapIface(call.Call.Args[1])
+				if fa, ok := dst.(*ssa.FieldAddr); ok && engine.FieldOf(fa) == fTargetsMgr {
+					okL, why = true, "decoded into "+fi.T(dst).S
+				} else if fa, ok := dst.(*ssa.FieldAddr); ok && engine.FieldOf(fa) == fTargetsF {
+					continue // old-version store holds targets only
+				} else {
+					okL, why = false, "the store is decoded into "+fi.T(dst).S+": the persisted IdleAt is not resumed"
+					break
+				}
+			}
+		}
+		r.Check(okL, "R10.4-idle-since", "restart keeps idle-since", engine.FuncName(ld), "Load decodes the store (Targets and IdleAt) into the manager's own TargetsInfo", why)
+	}
 	// runtime info reports IdleAt unchanged
 	nRep := 0
 	for _, fn := range p.Funcs {
